@@ -10,11 +10,14 @@ pub fn generate_mipmaps(
     loop {
         let width = current_image.width();
         let height = current_image.height();
-        if width <= 1 || height <= 1 || mipmaps.len() >= 16 {
+        // The chain ends at 1x1: the header's mipmap count is derived from the
+        // larger side, so a side that already reached 1 stays at 1 while the
+        // other one keeps halving.
+        if (width <= 1 && height <= 1) || mipmaps.len() >= 16 {
             break;
         }
-        let new_width = width >> 1;
-        let new_height = height >> 1;
+        let new_width = (width >> 1).max(1);
+        let new_height = (height >> 1).max(1);
         current_image = current_image.resize_exact(new_width, new_height, filter);
         mipmaps.push(current_image.clone());
     }
